@@ -411,7 +411,15 @@ func (vfs *BasePathFS) Rel(basepath, targpath string) (string, error) {
 // Remove removes the named file or (empty) directory.
 // If there is an error, it will be of type *PathError.
 func (vfs *BasePathFS) Remove(name string) error {
-	err := vfs.baseFS.Remove(vfs.ToBasePath(name))
+	const op = "remove"
+
+	basePath := vfs.ToBasePath(name)
+	if basePath == vfs.basePath {
+		// the root directory can't be removed.
+		return &fs.PathError{Op: op, Path: name, Err: vfs.errRoot()}
+	}
+
+	err := vfs.baseFS.Remove(basePath)
 
 	return vfs.FromPathError(err)
 }
@@ -427,7 +435,13 @@ func (vfs *BasePathFS) RemoveAll(path string) error {
 		return nil
 	}
 
-	err := vfs.baseFS.RemoveAll(vfs.ToBasePath(path))
+	basePath := vfs.ToBasePath(path)
+	if basePath == vfs.basePath {
+		// the root directory can't be removed.
+		return &fs.PathError{Op: "unlinkat", Path: path, Err: vfs.errRoot()}
+	}
+
+	err := vfs.baseFS.RemoveAll(basePath)
 
 	return vfs.FromPathError(err)
 }
@@ -437,7 +451,13 @@ func (vfs *BasePathFS) RemoveAll(path string) error {
 // OS-specific restrictions may apply when oldpath and newpath are in different directories.
 // If there is an error, it will be of type *LinkError.
 func (vfs *BasePathFS) Rename(oldname, newname string) error {
-	err := vfs.baseFS.Rename(vfs.ToBasePath(oldname), vfs.ToBasePath(newname))
+	oldBasePath, newBasePath := vfs.ToBasePath(oldname), vfs.ToBasePath(newname)
+	if oldBasePath != newBasePath && (oldBasePath == vfs.basePath || newBasePath == vfs.basePath) {
+		// the root directory can't be renamed or replaced.
+		return &os.LinkError{Op: "rename", Old: oldname, New: newname, Err: vfs.errRoot()}
+	}
+
+	err := vfs.baseFS.Rename(oldBasePath, newBasePath)
 
 	return vfs.FromLinkError(err)
 }
